@@ -22,7 +22,7 @@ META = dict(
     bounds=dict(
         quick="size vectors (1,1),(2,1),(0,2),(2,2),(3,2),(1,1,1),(2,1,1),(2,0,1); scaled buffer capacity C0 in {2,3,4,5} on (2,2),(3,1); "
               "all pair values >= 0 and delta_empty > 0 symbolic reals; public path valid_alignments(continuum) for ordinal / precomputed / combined-ordinal / levenshtein "
-              "dissimilarities declaring more categories than the continuum uses, on (2,1),(1,1,1) against the unit-to-unit form d(); IEEE mode: (2,1),(1,1,1) with every pair value a symbolic binary32 in [0, 2^22] and delta_empty a symbolic binary32 in (0, 1024]",
+              "dissimilarities declaring more categories than the continuum uses, on (2,1),(1,1,1) against the unit-to-unit form d(), and for the absolute / default combined dissimilarity on continua mixing unlabelled units with units of the first and last category; IEEE mode: (2,1),(1,1,1) with every pair value a symbolic binary32 in [0, 2^22] and delta_empty a symbolic binary32 in (0, 1024]",
         thorough="+ (3,3),(2,2,1),(1,1,1,1),(4,2); scaled capacity C0 in {1,2,3,5} on (3,2),(2,2,1); semi-symbolic (2,2,2) and (1,1,1,1,1); "
                  "real capacity 10000 crossed concretely on the real build (2x125 units) as translator validation; IEEE mode: + (2,2), and (1,1,1,1),(1,1,1,1,1) with concrete far-apart pairs"),
     outside="more than 4 fully symbolic annotators or > 12 symbolic branch decisions per run; float32 rounding of sums outside the IEEE configurations; "
@@ -45,6 +45,11 @@ META = dict(
 )
 
 
+# labels of the "unlabelled" configurations, per annotator and unit: every annotator pair has an (unlabelled, last category) or an
+# (unlabelled, first category) couple of units, and one couple of equal labels
+LABS_UNL = [[None, "d"], ["d", None], ["b", "d"], [None, "b"], ["d", "b"]]
+
+
 def configs(tier):
     out = []
     q = [(1, 1), (2, 1), (0, 2), (2, 2), (3, 2), (1, 1, 1), (2, 1, 1), (2, 0, 1)]
@@ -58,6 +63,12 @@ def configs(tier):
     for dk in ("ordinal", "precomputed", "combined-ordinal", "levenshtein", "combined-symbolic-weights"):
         for s in [(2, 1), (1, 1, 1)]:
             out.append(dict(key=f"valid_alignments,declared-superset,{dk},sizes={s}", sizes=list(s), declared=dk, chunk=None, cost=60))
+    # ... and for dissimilarities whose categories are the continuum's own, a continuum mixing UNLABELLED units with units of the first and of
+    # the last category (an unlabelled unit differs from every labelled one, whatever index stands for "no category" in the arrays)
+    for dk in ("absolute", "combined-symbolic-weights"):
+        for s in [(2, 1), (1, 1, 1)]:
+            out.append(dict(key=f"valid_alignments,unlabelled-next-to-first-and-last-category,{dk},sizes={s}", sizes=list(s), declared=dk, unlabelled=True,
+                            chunk=None, cost=60))
     # IEEE mode (symx.fp): the same kernel source on binary32 pair values / delta_empty with numba's width rules - what the
     # real-arithmetic runs above cannot see (a bound that is right over the reals and wrong after rounding)
     for s, far in [((2, 1), False), ((1, 1, 1), False)] + ([((2, 2), False), ((1, 1, 1, 1), True), ((1, 1, 1, 1, 1), True)] if tier == "thorough" else []):
@@ -183,6 +194,8 @@ def harness(cfg, ns):
         elif dk == "precomputed":
             M = real_np.array([[0, 1, 4, 9], [1, 0, 2, 5], [4, 2, 0, 3], [9, 5, 3, 0]], dtype=float) / 4.0
             D = ds.PrecomputedCategoricalDissimilarity(SortedSet(declared), ns.np.array(M, dtype=ns.np.float32), delta_empty=de)
+        elif dk == "absolute":
+            D = ds.AbsoluteCategoricalDissimilarity(delta_empty=de)
         elif dk == "combined-symbolic-weights":
             # the default combined dissimilarity with ANY weights alpha, beta >= 0 (exactly 0 included: a weight of 0 is where shortcuts live)
             w_alpha, w_beta = ctx.fresh("alpha", lo=0), ctx.fresh("beta", lo=0)
@@ -195,14 +208,14 @@ def harness(cfg, ns):
         for a, sz in enumerate(sizes):
             c.add_annotator(common.ANN[a])
             for j in range(sz):
-                lab = used[(a + j) % 2]
+                lab = LABS_UNL[a][j] if cfg.get("unlabelled") else used[(a + j) % 2]
                 seg = Segment(core.const(3 * j + a), core.const(3 * j + a + 2))
                 c.add(common.ANN[a], seg, lab)
                 units[(a, j)] = co.Unit(seg, lab)
                 uid += 1
 
         def realize(m):
-            r = dict(kind="declared", declared=dk, sizes=list(sizes), de=common.frs(mval(m, de)))
+            r = dict(kind="declared", declared=dk, sizes=list(sizes), de=common.frs(mval(m, de)), unlabelled=bool(cfg.get("unlabelled")))
             if dk == "combined-symbolic-weights":
                 r.update(alpha=common.frs(mval(m, w_alpha)), beta=common.frs(mval(m, w_beta)))
             return r
@@ -409,6 +422,8 @@ def _replay_declared(case):
         elif dk == "precomputed":
             M = np.array([[0, 1, 4, 9], [1, 0, 2, 5], [4, 2, 0, 3], [9, 5, 3, 0]], dtype=np.float32) / 4.0
             D = pa.PrecomputedCategoricalDissimilarity(SortedSet(declared), M, delta_empty=de)
+        elif dk == "absolute":
+            D = pa.AbsoluteCategoricalDissimilarity(delta_empty=de)
         elif dk == "combined-symbolic-weights":
             al_, be_ = float(Fraction(case.get("alpha", "1"))), float(Fraction(case.get("beta", "1")))
             if al_ == 0 and be_ == 0:
@@ -421,7 +436,7 @@ def _replay_declared(case):
         for a, sz in enumerate(sizes):
             c.add_annotator(common.ANN[a])
             for j in range(sz):
-                lab = used[(a + j) % 2]
+                lab = LABS_UNL[a][j] if case.get("unlabelled") else used[(a + j) % 2]
                 seg = Segment(3 * j + a, 3 * j + a + 2)
                 c.add(common.ANN[a], seg, lab)
                 units[(a, j)] = pa.Unit(seg, lab)
